@@ -439,13 +439,13 @@ def main(tier, replay=None):
             ml = "rns %s %s %d %s" % (hist, body, len(o), " ".join(map(str, o)))
         cases.append({"kind": kind, "hist": hist, "sub": sub, "ps": ps, "rs": rs, "al": al, "impl": il, "model": ml})
 
-    nas = 6 if quick else 12
+    nas = 5 if quick else 12
 
     mlcap = 12 if quick else 33
     lens_small = [1, 1, 2, 2, 3, 3, 4, 5, 6, 7, 8, 9, 12, 16, 17]
     lens_big = [24, 31, 32, 33, 40] if quick else [24, 31, 32, 33, 40, 64, 65, 100, 150]
     # ---- IntRNSsystem
-    rounds = 5 if quick else 60
+    rounds = 4 if quick else 50
     for rnd in range(rounds):
         for hist in INT_HISTS:
             for tt in ["Integer", "int64", "uint64"]:
@@ -464,9 +464,9 @@ def main(tier, replay=None):
                     n = rng.range(2, mlcap)      # cost of the extracted model ~ n^2 * bits^2 on the inductive Z
                 ps = gen_moduli(rng, n, maxp, style)
                 rs = gen_residues(rng, ps, allow_out_of_range_tail=(tt == "Integer"))
-                add_sys("int", hist, tt, ps, rs, gen_as(rng, ps, nas if n <= 17 else 3))
+                add_sys("int", hist, tt, ps, rs, gen_as(rng, ps, nas if n <= 17 else 2))
     # ---- RNSsystem<Integer, Domain>
-    for rnd in range(rounds):
+    for rnd in range(3 if quick else 40):
         for hist in DOM_HISTS:
             for dom in DOMS:
                 n = rng.choice(lens_small if rng.chance(4, 5) else lens_big)
@@ -483,7 +483,7 @@ def main(tier, replay=None):
                     n = rng.range(2, mlcap)
                 ps = gen_moduli(rng, n, maxp, style, dom_pred(dom))
                 rs = gen_residues(rng, ps)
-                add_sys("rns", hist, dom, ps, rs, gen_as(rng, ps, nas if n <= 17 else 3))
+                add_sys("rns", hist, dom, ps, rs, gen_as(rng, ps, nas if n <= 17 else 2))
     # the documented example of the known copy defect
     add_sys("int", "copycold", "Integer", [3, 5, 7], [1, 2, 3], [100, 7, 105, 0, -5])
     add_sys("int", "fresh", "Integer", [101, 7], [0, 3], [101, 7, 707, 706, -101])
